@@ -70,6 +70,23 @@ Definition label_leb_be (x y : N * list bytes) : bool :=
   match bucket_cmp (snd x) (snd y) with Lt => true | Gt => false | Eq => fst x <=? fst y end.
 Definition label_leb_le (x y : N * list bytes) : bool := fst x <=? fst y.
 
+(* The SORT KEY of a name.  In the library a name is a Rust `String` and `Vec<String>::cmp` compares the names
+   lexicographically by their Unicode scalar values (= UTF-8 byte order); in the model a name is its Shift-JIS
+   ENCODED byte string.  The two orders differ (e.g. 82 A0 = U+3042 sorts after 83 BF = U+03B1 as a String,
+   before it as bytes), so the big-endian comparison goes through a key function
+       name_key : encoded name -> the sequence of numbers the library compares  (the scalars of the decoded name)
+   which is a PARAMETER of serialize: nothing is assumed about it in the model, the theorems hold for every key
+   function (some need it to be injective on the names of the archive, as the decoder is on lossless names:
+   A-codec), and the correspondence check passes the library's own decoding of every name (case-line group `K`).
+   [key_bytes] (the encoded bytes themselves) is the instance for little-endian archives, whose order never looks
+   at a name. *)
+Definition name_key := bytes -> list N.
+Definition key_bytes : name_key := fun b => b.
+Definition label_leb_be_k (kf : name_key) (x y : N * list bytes) : bool :=
+  label_leb_be (fst x, map kf (snd x)) (fst y, map kf (snd y)).
+Definition label_leb (kf : name_key) (e : endian) : N * list bytes -> N * list bytes -> bool :=
+  match e with BE => label_leb_be_k kf | LE => label_leb_le end.
+
 (* strings: sorted by address; pointer written into the cell; cells grouped by text offset in
    first-use order (IndexMap), each group sorted ascending *)
 Fixpoint group_add (off cell : N) (g : list (N * list N)) : list (N * list N) :=
@@ -87,7 +104,7 @@ Fixpoint emit_text (e : endian) (text_start : N) (ts : list (N * bytes)) (d : by
     emit_text e text_start r d' p' (group_add off cell g)
   end.
 
-Definition serialize (m : mode) (a : archive) : outcome bytes :=
+Definition serialize_k (kf : name_key) (m : mode) (a : archive) : outcome bytes :=
   let e := a_endian a in
   let dlen := size a in
   let cs := isort (fun x y : bytes * list N => bytes_leb (fst x) (fst y)) (a_cstrs a) in
@@ -96,7 +113,7 @@ Definition serialize (m : mode) (a : archive) : outcome bytes :=
   let pointers := isort (fun x y : N * N => fst x <=? fst y) (a_ptrs a ++ cptrs) in
   d1 <- poke_all e (a_data a) pointers ;;
   let raw_pointers1 := map fst pointers in
-  let labels := isort (match e with BE => label_leb_be | LE => label_leb_le end) (a_labels a) in
+  let labels := isort (label_leb kf e) (a_labels a) in
   let '(tpool1, raw_labels) := emit_labels labels pool_empty [] in
   let text := isort (fun x y : N * bytes => fst x <=? fst y) (a_text a) in
   let text_start := dlen + lenN raw_cstrings
@@ -109,6 +126,10 @@ Definition serialize (m : mode) (a : archive) : outcome bytes :=
   Ok (enc e 4 (trunc_w 32 file_size) ++ enc e 4 dsz ++ enc e 4 (trunc_w 32 (N.of_nat (length raw_pointers)))
       ++ enc e 4 (trunc_w 32 (N.of_nat (length raw_labels) / 2)) ++ zeros 16
       ++ d2 ++ raw_cstrings ++ u32s e raw_pointers ++ u32s e raw_labels ++ p_raw tpool2).
+
+(* the instance whose sort key is the encoded name itself: THE image of a little-endian archive (whose label order
+   ignores names: Proofs/BinDeterminism.v serialize_k_LE), used by the little-endian-only formats (C16-C18) *)
+Definition serialize (m : mode) (a : archive) : outcome bytes := serialize_k key_bytes m a.
 
 (* ------------------------------------------------------------------ from_bytes *)
 (* archive.write_label during parsing *)
